@@ -142,8 +142,8 @@ end State
 
 /-! ### invariant -/
 
-/-- element traits without callbacks (raw data = no traits at all) -/
-def PlainT (t : Option Traits) : Prop := ∀ x, t = some x → x.init = false ∧ x.fini = none
+/-- element traits without callbacks and with a non-zero element size (raw data = no traits at all) -/
+def PlainT (t : Option Traits) : Prop := ∀ x, t = some x → x.init = false ∧ x.fini = none ∧ x.size ≠ 0
 
 theorem PlainT.none : PlainT none := by intro x h; cases h
 
